@@ -2,6 +2,7 @@
 # run every registered check in the given tier (default quick); prints one summary line per property
 cd "$(dirname "$0")/.."
 TIER=${1:-quick}
+mkdir -p .work evidence
 for p in C01 C02 C03 C04 C05 C06 C07 C08 C09 C10 C11 C12 C13 C14 C15 C16 C17 C18 C19 C20; do
   s=$(date +%s)
   ./check $p --tier $TIER > .work/run_$p.log 2>&1; rc=$?
